@@ -282,6 +282,12 @@ def build_C05(ctx, tier, rnd):
     for j, nm in enumerate(names):
         pre = prefixes[j % len(prefixes)]
         hs.append(('c05m%d' % j, [al.init] + al.seq(pre) + [op_update(ctx, 2, dl='@' + nm), 'op nextnum', 'op curnum'] + al.seq(['u2', 'q'])))
+    # a corrupt download offered under the number of the RUNNING / last good / pending patch (a re-offer after a channel
+    # switch back): "next-boot patch, current patch and banned set are exactly what they were before"
+    for j, nm in enumerate(names[:12] + ['wrongbase', 'empty', 'junkdl']):
+        for pk in ('good1pend2', 'good1boot2', 'good2pend1', 'good1'):
+            for n in (1, 2, 3):
+                hs.append(('c05n%d_%s_%d' % (j, pk, n), [al.init] + al.seq(PFX[pk]) + [op_update(ctx, n, dl='@' + nm), 'op nextnum', 'op curnum'] + al.seq(['q', 'c'])))
     # truncation of the uncompressed stream at EVERY length (record boundaries included), alone and after
     # an earlier attempt for the same number that was rejected (right bytes, wrong hash) or failed
     step = 1 if tier == 'thorough' else max(1, len(raw) // 24)
@@ -341,9 +347,9 @@ def build_C06(ctx, tier, rnd):
 
 
 # ---- C06, real-transport half: the library's default callbacks (reqwest) against a scripted local server
-HC_FAIL = ['close', 'reset', 'stall', 'garbage', 's500', 's404', 's403', 's204', 'chunkbad', 'halfhead', 'trunc', 'refused']
-HD_FAIL = ['close', 'reset', 'stall', 'garbage', 's500', 's404', 'trunc', 'chunkbad', 'halfhead']
-HE_FAIL = ['s500', 'close', 'reset', 'garbage']
+HC_FAIL = ['close', 'reset', 'stall', 'garbage', 's500', 's404', 's403', 's204', 'chunkbad', 'halfhead', 'trunc', 'refused', 's503u0', 's503u1', 's503u2']
+HD_FAIL = ['close', 'reset', 'stall', 'garbage', 's500', 's404', 'trunc', 'chunkbad', 'halfhead', 's503u0', 's503u1', 's503u2']
+HE_FAIL = ['s500', 'close', 'reset', 'garbage', 's503u1']
 
 
 def http_bodies(ctx):
@@ -500,7 +506,13 @@ def run_C06(pid, tier, seed, model_ok=True):
         header = ctx.header()
         model, _, ex1 = run_both(header, [(n, m) for n, i, m, r in hs], work, model_only=True) if model_ok else ({}, {}, [])
         _, impl, ex2 = run_both(header + ['http on'], [(n, i) for n, i, m, r in hs], work, impl_only=True)
-        a['extras'] += ex1 + ex2
+        # "every call returns normally": a panic on any thread (hook) or a dead process is a violation with the
+        # history that was running as its replay
+        for x in ex2:
+            if 'PANIC-HOOK' in x or 'CRASH' in x:
+                hist = next((h for h in hs if impl.get(h[0]) is not None and len(impl[h[0]]) < len([o for o in h[1] if o.startswith('op ')])), hs[0])
+                a['monitor_fail'].append((hist[0], max(0, len(impl.get(hist[0], [])) ), 'C06: a call did not return normally against a misbehaving server: ' + x[:300], hist[1], header + ['http on']))
+        a['extras'] += ex1 + [x for x in ex2 if 'PANIC-HOOK' not in x and 'CRASH' not in x]
         kinds = collections.Counter()
         for name, iops, mops, refused in hs:
             tr = impl.get(name)
@@ -1214,6 +1226,9 @@ def run_C12(pid, tier, seed, model_ok=True):
             'failure': ['op start', 'op failure', 'op nextnum'],
             'check': [op_check(ctx, 2), 'op nextnum'],
             'update2': [op_update(ctx, 3), 'op nextnum', op_update(ctx, 3)],
+            # a failure event is queued AFTER the stuck update flushed the queue; the second update must be refused
+            # at once: no event report, no state access before the try-lock
+            'failupd2': ['op start', 'op failure', op_update(ctx, 3), 'op nextnum'],
         }
         for pk in ('empty', 'good1', 'good1pend2', 'boot1'):
             for k, t1 in t1s.items():
@@ -1270,6 +1285,11 @@ def run_C12(pid, tier, seed, model_ok=True):
                     o1 = line[0].split(' ')[0].split('|')[1].split(',')
                     if 'update2' in name and o1[0] != '-1':
                         fails.append((name, 0, 'C12: second update during a stuck update returned %s, not the already-in-progress error' % o1[0], ops, header))
+                    if 'failupd2' in name:
+                        sent = [x for x in parse_line(line[0])['net'] if x.startswith('E:F.')]
+                        if o1[2] != '-1' or sent:
+                            fails.append((name, 0, 'C12: an update requested while another one is stuck in the network must return the already-in-progress error at once, without network I/O: it returned %s and the failure event queued meanwhile was %s' % (
+                                o1[2], 'sent by it (%s)' % sent if sent else 'not sent'), ops, header))
             if len(samples) < 5 and rnd.random() < 0.01:
                 samples.append({'history': name, 'last': tr[-1][-120:]})
         for x in extras:
